@@ -5,6 +5,7 @@ package c14
 import (
 	"encoding/json"
 	"fmt"
+	"io"
 	"math/rand"
 	"net"
 	"os"
@@ -265,6 +266,64 @@ func runBatch(p *e2e.Pair, sc *scenario, from, to int) *e2e.Failure {
 	return nil
 }
 
+// burst starts n local connections at once (each sends its own 8-byte id and must get it echoed by
+// whichever target connection received it) and reports how many were served.
+func burst(p *e2e.Pair, n int, seed int64) (served int, f *e2e.Failure) {
+	tg := p.Targets["echo"]
+	stopEcho := make(chan struct{})
+	go func() {
+		for {
+			var c net.Conn
+			got := e2e.Go(func() { c, _ = tg.Next() })
+			select {
+			case <-got:
+			case <-stopEcho:
+				return
+			}
+			if c == nil {
+				return
+			}
+			go func(c net.Conn) {
+				defer c.Close()
+				b := make([]byte, 8)
+				if _, err := io.ReadFull(c, b); err == nil {
+					c.Write(b)
+					e2e.Bump(8)
+				}
+			}(c)
+		}
+	}()
+	var mu sync.Mutex
+	var wg sync.WaitGroup
+	for i := 0; i < n; i++ {
+		wg.Add(1)
+		go func(i int) {
+			defer wg.Done()
+			app, err := p.Dial("echo")
+			if err != nil {
+				return
+			}
+			defer app.Close()
+			id := []byte(fmt.Sprintf("%04d%04d", seed%10000, i))
+			app.Write(id)
+			back := make([]byte, 8)
+			app.SetReadDeadline(time.Now().Add(e2e.StallWindow()))
+			if _, err := io.ReadFull(app, back); err == nil && string(back) == string(id) {
+				mu.Lock()
+				served++
+				mu.Unlock()
+				e2e.Bump(8)
+			}
+		}(i)
+	}
+	o := e2e.Wait(e2e.Go(wg.Wait))
+	close(stopEcho)
+	if o == e2e.Inconclusive {
+		return served, &e2e.Failure{Kind: "busy", Inconclusive: true}
+	}
+	return served, nil
+}
+
 func startPair(sc *scenario) (*e2e.Pair, error) {
 	relay := sc.Kind == "end" && sc.Mode != "client-shutdown"
 	return e2e.Start(e2e.Options{Carrier: sc.Carrier, WithRelay: relay})
@@ -362,6 +421,43 @@ func runEnd(rec *vcommon.Rec, sc *scenario) {
 	rng.Read(garbage)
 	switch sc.Mode {
 	case "client-shutdown":
+		p.Client.Shutdown()
+	case "relay-fin+burst-reconnect":
+		// the carrier is cut and a burst of local connections re-establishes the session (three rounds, with
+		// seeded delays at the client's connect hooks to spread the interleavings); then the client is shut
+		// down: whatever physical sessions the bursts created must all be released
+		if p.Relay == nil {
+			rec.Inconclusive("no stream relay on this carrier", sc)
+			return
+		}
+		hr := vcommon.NewRand(sc.Seed, "c14hook")
+		var hmu sync.Mutex
+		jitter := func() {
+			hmu.Lock()
+			d := time.Duration(hr.Intn(8000)) * time.Microsecond
+			hmu.Unlock()
+			time.Sleep(d)
+		}
+		verifhook.Set("upstream.unlocked", jitter)
+		defer verifhook.Set("upstream.unlocked", nil)
+		for _, c := range held {
+			c.Close()
+		}
+		held = nil
+		for round := 0; round < 5; round++ {
+			for _, l := range p.Relay.Links() {
+				l.CutRST()
+			}
+			time.Sleep(50 * time.Millisecond)
+			served, f := burst(p, 8, sc.Seed+int64(round))
+			if f != nil {
+				rec.Inconclusive("burst: "+f.Kind, sc)
+				return
+			}
+			rec.Stat("burst_connections_served", int64(served))
+			rec.Stat("burst_connections_started", 8)
+		}
+		rec.Stat("physical_connections_seen_by_relay", p.Relay.ConnCount())
 		p.Client.Shutdown()
 	case "relay-fin", "relay-rst", "cut-server-side", "cut-client-side", "garbage-to-server", "garbage-to-client":
 		if p.Relay == nil {
@@ -491,7 +587,7 @@ func scenarios(rec *vcommon.Rec) []*scenario {
 		if c == "stdio" {
 			continue
 		}
-		modes := []string{"client-shutdown", "relay-fin", "relay-rst", "cut-server-side", "cut-client-side", "garbage-to-server", "garbage-to-client", "blackhole"}
+		modes := []string{"client-shutdown", "relay-fin", "relay-rst", "cut-server-side", "cut-client-side", "garbage-to-server", "garbage-to-client", "relay-fin+burst-reconnect", "blackhole"}
 		if strings.HasPrefix(c, "udp") {
 			modes = []string{"client-shutdown", "blackhole"}
 		}
